@@ -327,6 +327,10 @@ func enumerateFaults(p C04Plan, x xfer, stream []byte) []C04Fault {
 			v ^= 0x21
 		}
 		add("sub-rand", pipe.Edit{Off: off, Kind: "sub", Val: v})
+		if stream[off] != '*' {
+			// '*' is special on this protocol: a line starting with it is an error report
+			add("sub-star", pipe.Edit{Off: off, Kind: "sub", Val: '*'})
+		}
 		add("del", pipe.Edit{Off: off, Kind: "del"})
 		add("ins", pipe.Edit{Off: off, Kind: "ins", Val: core.TapeAt(p.Subs, i+7, 0)})
 	}
@@ -342,6 +346,21 @@ func enumerateFaults(p C04Plan, x xfer, stream []byte) []C04Fault {
 				dataOffs = append(dataOffs, pos+k)
 			}
 			pos += bl
+		}
+		// the framing bytes themselves (SOH, each STX, EOT) replaced by other protocol bytes
+		markers := []int{x.Start}
+		mp := x.Start + 2 + int(stream[x.Start+1])
+		for _, bl := range t.Blocks {
+			markers = append(markers, mp)
+			mp += 2 + bl
+		}
+		markers = append(markers, mp) // EOT
+		for _, off := range markers {
+			for _, v := range []int{0x00, 0x01, 0x02, 0x04, 'F', ';', '\r'} {
+				if off < x.End && int(stream[off]) != v {
+					add("sub-marker", pipe.Edit{Off: off, Kind: "sub", Val: v})
+				}
+			}
 		}
 		if len(dataOffs) >= 2 {
 			for k, pr := range p.Pairs {
@@ -508,6 +527,8 @@ func kindClass(k string) string {
 		return "sum-preserving"
 	case "del", "ins":
 		return "length-changing"
+	case "sub-marker", "sub-star":
+		return "framing-byte"
 	}
 	return "substitution"
 }
